@@ -311,6 +311,17 @@ Section FifoBridge.
                   (fun s e _ => g_step_ok s e) h (fifol_init cap)) as Q.
     rewrite <- fl_run_is_run_res, D in Q. apply req_ok. apply Q. clear. induction h; constructor; auto.
   Qed.
+
+  (* ---- the constructor, translated (member initialisers + body): it builds the literal machine's initial state,
+     so the whole-history theorem starts from what the source constructs ---- *)
+  Lemma g_init_ok (cap : nat) : (g_init cap : fifol K V) = fifol_init cap.
+  Proof. reflexivity. Qed.
+  Theorem generated_fifo_constructed_no_UB_on_any_history : forall cap (h : list (ev K V)),
+      1 <= cap ->
+      exists l', run_res g_step (g_init cap) h = Ok (l', snd (run (lc_step fifo_policy) (lc_init cap) h)) /\
+                 fl_rep l' (fst (run (lc_step fifo_policy) (lc_init cap) h)).
+  Proof. intros cap h Hc. rewrite g_init_ok. apply generated_fifo_no_UB_on_any_history; auto. Qed.
 End FifoBridge.
 
 Print Assumptions generated_fifo_no_UB_on_any_history.
+Print Assumptions generated_fifo_constructed_no_UB_on_any_history.
